@@ -47,6 +47,10 @@ pub struct Case {
     /// plug in a checksum generator (the `ChecksumGenerator` seam) whose result depends on the creator
     #[serde(default)]
     pub creator_checksums: bool,
+    /// the last `plain_accounts` accounts (never account 0) have plain names ("owner", "mallory") as
+    /// many tests use them: no valid address for the chain's Api, yet usable as sender, creator, admin
+    #[serde(default)]
+    pub plain_accounts: u8,
     pub ops: Vec<Op>,
 }
 
@@ -63,6 +67,7 @@ pub struct Sim {
     /// digest of everything observed so far, recorded after every step (twin comparison)
     pub step_digs: Vec<u64>,
     malformed_before: u64,
+    not_admin_before: u64,
     /// handle on the repo's CachingCustomHandler state, when it is plugged in
     pub caching: Option<cw_multi_test::custom_handler::CachingCustomHandlerState<SimMsg, SimQuery>>,
     pub custom_execs_seen: Vec<String>,
@@ -111,8 +116,13 @@ impl Sim {
         let n_den = case.n_denoms.clamp(1, 4);
         let n_val = case.n_validators.min(3);
         let mut names = Names { prefix: prefix.to_string(), ..Default::default() };
+        let plain = (case.plain_accounts as u32).min(2).min(n_acc.saturating_sub(1));
         for i in 0..n_acc {
-            names.accounts.push(api.addr_make(&format!("account{}", i)).to_string());
+            if i >= n_acc - plain {
+                names.accounts.push(["owner", "mallory"][(n_acc - 1 - i) as usize].to_string());
+            } else {
+                names.accounts.push(api.addr_make(&format!("account{}", i)).to_string());
+            }
         }
         for i in 0..24 {
             names.ghosts.push(api.addr_make(&format!("ghost{}", i)).to_string());
@@ -138,7 +148,7 @@ impl Sim {
         // address of an instantiation whose entry point never ran (so that nothing could be learned):
         // ask the repo's default generator, with the model's instance count
         let adv = case.adv_addr;
-        if adv {
+        {
             let vapi = MockApiBech32::new(prefix);
             model.addr_validator = Some(Box::new(move |a: &str| {
                 use cosmwasm_std::Api;
@@ -250,6 +260,7 @@ impl Sim {
             tree_sigs: Fnv::new(),
             step_digs: vec![],
             malformed_before: 0,
+            not_admin_before: 0,
             caching,
             custom_execs_seen: vec![],
             custom_queries_seen: vec![],
@@ -284,6 +295,10 @@ impl Sim {
         self.model.faults.iter().filter(|(k, _)| k.starts_with("malformed_response")).map(|(_, v)| *v).sum()
     }
 
+    fn not_admin_count(&self) -> u64 {
+        self.model.faults.get("not_admin").copied().unwrap_or(0)
+    }
+
     /// Properties a wrong number or order of replies is attributed to: a malformed response is "the same
     /// as any other contract error", so when one occurred in this step the reply it must (or must
     /// not) trigger belongs to C13 as well.
@@ -298,6 +313,7 @@ impl Sim {
     fn pre_step(&mut self) -> BTreeMap<Vec<u8>, Vec<u8>> {
         let snap = self.app.storage().snapshot();
         self.malformed_before = self.malformed_count();
+        self.not_admin_before = self.not_admin_count();
         let keys: Vec<Vec<u8>> = snap.keys().cloned().collect();
         self.world.0.borrow_mut().names.root_keys = keys.clone();
         self.model.names.root_keys = keys;
@@ -434,6 +450,10 @@ impl Sim {
                 props.extend_from_slice(extra_props);
                 if self.model.faults.keys().any(|k| k.starts_with("malformed_response")) {
                     props.push("C13");
+                }
+                if self.not_admin_count() > self.not_admin_before {
+                    // the model refused an admin operation of a non-admin in this step
+                    props.push("C12");
                 }
                 self.v(&props, "accepted_but_must_fail", format!("{}: returned Ok but the model says the call must fail (model faults so far: {:?})", what, self.model.faults.keys().collect::<Vec<_>>()));
             }
